@@ -2,6 +2,8 @@ package checks
 
 import (
 	"os"
+	"path/filepath"
+	"reflect"
 	"verif/proj"
 	"encoding/json"
 	"fmt"
@@ -273,6 +275,7 @@ func c12Cfg(sp c12Spec, c *mc.Ctx) {
 	fileFmt := hermes.DateFormat(sp.Format)
 	b := e1Base{Soil: "loam12", GW: 99, InitW: 0.6, InitN: 20, ET: 3}
 	p := e1Project(b, 10)
+	p.Weather = e1Weather(0, []string{"mild", "rain", "mild", "dry-warm", "mild", "drizzle", "mild"}, false)
 	samples := []time.Time{time.Date(1929, 12, 31, 0, 0, 0, 0, time.UTC), time.Date(1930, 1, 1, 0, 0, 0, 0, time.UTC), time.Date(1959, 6, 13, 0, 0, 0, 0, time.UTC), time.Date(1960, 2, 29, 0, 0, 0, 0, time.UTC),
 		time.Date(1999, 12, 31, 0, 0, 0, 0, time.UTC), time.Date(2000, 3, 1, 0, 0, 0, 0, time.UTC), time.Date(2024, 2, 29, 0, 0, 0, 0, time.UTC), time.Date(2029, 11, 5, 0, 0, 0, 0, time.UTC)}
 	for _, fileSplit := range []int{-1, 30, 60} {
@@ -287,6 +290,7 @@ func c12Cfg(sp c12Spec, c *mc.Ctx) {
 				}
 				p.Config["EndDate"] = c12Text(fileFmt, time.Date(2001, 4, 19, 0, 0, 0, 0, time.UTC), false)
 				p.Write(root)
+				writeWeather(root, p)
 				eff := fileFmt
 				args := p.Args(root)
 				if lineFmt >= 0 {
@@ -302,8 +306,13 @@ func c12Cfg(sp c12Spec, c *mc.Ctx) {
 				long := eff == hermes.DateDElong || eff == hermes.DateENlong
 				label := fmt.Sprintf("config.yml Dateformat=%v DivideCentury=%d, batch line format=%d split=%d (-1 = not given)", fileFmt, fileSplit, lineFmt, lineSplit)
 				reached := false
+				var readCfg *hermes.Config
 				pr := &hermes.VerifProbe{Config: func(g *hermes.GlobalVarsMain, cfg *hermes.Config, hp *hermes.HFilePath) {
 					reached = true
+					if readCfg == nil {
+						cp := *cfg
+						readCfg = &cp
+					}
 					for _, t := range samples {
 						if !long && (t.Year() < 1900+effSplit || t.Year() > 1999+effSplit) {
 							continue // outside the window in which a two-digit year is unambiguous
@@ -333,6 +342,24 @@ func c12Cfg(sp c12Spec, c *mc.Ctx) {
 				}
 				if !reached {
 					c.Violate("configuration-not-read", fmt.Sprintf("%s: the run did not reach the end of the configuration reader", label), nil)
+				}
+				if lineFmt < 0 && lineSplit < 0 && readCfg != nil {
+					// the same configuration written back by the program's own writer and read again: complete runs in
+					// fresh processes (a configuration the reader rejects ends the process) must give the same files
+					ra := proj.RunFresh(root, args)
+					hermes.NewHermesSession().WriteYamlConfig(filepath.Join(root, "project", p.ID, "config.yml"), *readCfg)
+					rb := proj.RunFresh(root, args)
+					c.Trace(2)
+					c.Transition(1)
+					h := mc.NewHasher().S("cfg-written").I(sp.Format).I(fileSplit).Sum()
+					c.State(h)
+					if !ra.Success || ra.Panic != "" {
+						mc.HarnessError("c12 cfg: reference run failed: %s %s", ra.Err, ra.Panic)
+					}
+					c.NonTrivial(h)
+					if !rb.Success || rb.Panic != "" || !reflect.DeepEqual(ra.Files, rb.Files) {
+						c.Violate("program-written-configuration-read-back-differently", fmt.Sprintf("%s: the configuration the run had read, written by the program's own writer and read again: success=%v %s %.200s; result files equal=%v", label, rb.Success, rb.Err, rb.Panic, reflect.DeepEqual(ra.Files, rb.Files)), nil)
+					}
 				}
 			}
 		}
